@@ -663,6 +663,18 @@ fn gen_conc_script(rng: &mut Rng) -> (Vec<(u64, SOp)>, Vec<(u64, ROp)>) {
         if rng.chance(1, 3) && sender.len() >= 2 {
             sender.push((1 + n, SOp::Cancel(0)));
         }
+        if rng.chance(1, 2) {
+            // created and cancelled back to back (same slot, no pause) while the receiver is blocked: the
+            // command that wakes the receiver and the one right behind it must be applied in the order sent
+            let dur = *rng.pick(&[4u64, 12, 20]);
+            let tick = 2 + n;
+            if !used.contains(&(tick * 8 + 1 + dur)) {
+                id += 1;
+                let index = sender.iter().filter(|(_, op)| matches!(op, SOp::Timer(..))).count();
+                sender.push((tick, SOp::Timer(id, dur)));
+                sender.push((tick, SOp::Cancel(index)));
+            }
+        }
         let mut receiver = vec![(0, block)];
         for k in 0..rng.range(0, 2) {
             receiver.push((8 + k, rng.pick(&[ROp::Try, ROp::Recv, ROp::RecvTimeout(10)]).clone()));
@@ -1230,6 +1242,42 @@ fn run_expirerace(attempts: usize) -> (String, String, String) {
     )
 }
 
+/// `vq deadlinerace <attempts>`: a timer whose deadline falls 5-160 us *before* the deadline of the
+/// receive_timeout() that waits for it.  Whenever the receiver wakes up (also after both instants have
+/// passed) the timer became deliverable during the call, so the call must return it; None is a failure.
+/// By construction the timer's deadline precedes the call's: the call's timeout is computed from an
+/// instant read after send_with_timer() returned.
+fn run_deadlinerace(attempts: usize) -> (String, String, String) {
+    if attempts == 0 || attempts > 100_000 {
+        return ("bad-case".into(), "ok".into(), String::new())
+    }
+    let mut late_none = 0usize;
+    let mut first = String::new();
+    let dur = Duration::from_micros(1500);
+    for a in 0..attempts {
+        let mut q = EventReceiver::<u64>::default();
+        let tx = q.sender().clone();
+        let delta = Duration::from_micros([5u64, 10, 20, 40, 80, 160][a % 6]);
+        tx.send_with_timer(a as u64, dur);
+        let after = Instant::now();
+        let call_deadline = after + dur + delta;
+        let c0 = Instant::now();
+        let timeout = call_deadline.saturating_duration_since(c0);
+        let r = q.receive_timeout(timeout);
+        if r.is_none() {
+            late_none += 1;
+            if first.is_empty() {
+                first = format!("receive_timeout({:?}) answered None although a timer was due {:?} before its deadline", timeout, delta);
+            }
+        }
+    }
+    (
+        format!("late_none={}", late_none),
+        if late_none == 0 { "ok".into() } else { format!("FAIL {} of {} calls: {}", late_none, attempts, first) },
+        "deadlinerace,timer,woken,waited".into(),
+    )
+}
+
 fn run_race(kind: char) -> (String, String, String, String) {
     use message_io::util::verif::set_sync_handler;
     use std::sync::atomic::{AtomicBool, Ordering};
@@ -1451,6 +1499,11 @@ fn main() {
                 }
             }
         }
+        "gen-deadlinerace" => {
+            let n = arg_u64(2, 300) as usize;
+            let (i, v, t) = run_deadlinerace(n);
+            emit(&mut out, &format!("vq deadlinerace {}", n), &i, &v, &t);
+        }
         "gen-expirerace" => {
             let n = arg_u64(2, 320) as usize;
             let (i, v, t) = run_expirerace(n);
@@ -1484,6 +1537,12 @@ fn main() {
         }
         "run" => {
             for line in stdin_lines() {
+                if line.starts_with("vq deadlinerace ") {
+                    let n = line.split(' ').nth(2).and_then(|x| x.parse().ok()).unwrap_or(0);
+                    let (i, v, t) = run_deadlinerace(n);
+                    emit(&mut out, &line, &i, &v, &t);
+                    continue
+                }
                 if line.starts_with("vq expirerace ") {
                     let n = line.trim().split(' ').nth(2).and_then(|x| x.parse().ok()).unwrap_or(0);
                     let (i, v, t) = run_expirerace(n);
